@@ -268,6 +268,9 @@ func runC14Replies(c *Ctx) {
 	reqs := []string{"VERSION", "PING 12345", "PING", "PONG", "SOURCE", "TIME", "FINGER", "ACTION waves", "FOO", "FOO bar", "version", "Version", "VERSION extra text", "", " x", "CLIENTINFO", "ERRMSG x", "PING \x01"}
 	for i := 0; i < 150*c.Scale; i++ {
 		in := map[string]string{"nick": "me", "check": "c14", "version": c.Rng.Pick([]string{"", "mybot 1.0"})}
+		if c.Rng.Chance(35) {
+			in["scribblers"] = "1" // user handlers that rewrite the event they were handed: the automatic answer still goes to the requester
+		}
 		steps := []string{"R:srv 001 me :Welcome"}
 		if c.Rng.Bool() {
 			steps = append(steps, "R:me!u@h JOIN #a", "R:srv CAP * ACK :echo-message")
@@ -297,7 +300,7 @@ func runC03Helpers(c *Ctx) {
 	helpers := map[string][]string{
 		"Message": {"PRIVMSG"}, "Notice": {"NOTICE"}, "Action": {"PRIVMSG"}, "Topic": {"TOPIC"}, "Kick": {"KICK"}, "Part": {"PART"}, "PartMessage": {"PART"},
 		"Join": {"JOIN"}, "JoinKey": {"JOIN"}, "Nick": {"NICK"}, "Mode": {"MODE"}, "Ban": {"MODE"}, "Invite": {"INVITE"}, "Away": {"AWAY"}, "Who": {"WHO"}, "Whois": {"WHOIS"},
-		"Whowas": {"WHOWAS"}, "Oper": {"OPER"}, "List": {"LIST"}, "Ping": {"PING"}, "Pong": {"PONG"}, "Monitor": {"MONITOR"}, "SendCTCP": {"PRIVMSG"}, "SendCTCPReply": {"NOTICE"}, "SendEvent": nil,
+		"Whowas": {"WHOWAS"}, "Oper": {"OPER"}, "List": {"LIST"}, "Ping": {"PING"}, "Pong": {"PONG"}, "Monitor": {"MONITOR"}, "SendCTCP": {"PRIVMSG"}, "SendCTCPReply": {"NOTICE"}, "SendEvent": nil, "SendRaw": {"PRIVMSG"},
 	}
 	var names []string
 	for k := range helpers {
@@ -315,6 +318,12 @@ func runC03Helpers(c *Ctx) {
 		}
 		if h == "SendCTCP" || h == "SendCTCPReply" {
 			args = append([]string{c.Rng.Pick(nasty), "VERSION"}, args...)
+		}
+		if h == "SendRaw" {
+			// one raw line per argument, as SendRawf("PRIVMSG %s :%s", target, untrusted) builds it
+			for j := range args {
+				args[j] = "PRIVMSG #t :" + args[j]
+			}
 		}
 		s := &Session{Cfg: SessCfg{Nick: "me", User: "me", AllowFlood: true}, Steps: []Step{
 			{Op: "recv", Arg: ":srv 001 me :Welcome"}, {Op: "barrier"}, {Op: "call", Arg: h, Args: args}, {Op: "sleep"}, {Op: "barrier"}}}
